@@ -60,6 +60,7 @@ class Syms:
         self.aarrs = []     # allocatable integer arrays
         self.recs = []      # variables of type(rec_t) (components n, tab(10))
         self.is_program = False
+        self.assoc_pool = []
         self.objs = []      # variables of type(outer_t): obj%mid (mid_t) %inner (inner_t), bindings `run`
 
 
@@ -304,6 +305,9 @@ class ExecGen:
                 out.append("end associate")
             elif k == "associate":
                 nm = f"asc{len(self.assoc)}_{ch.int(3)}"
+                pool = [x for x in getattr(self.s, "assoc_pool", []) if x not in self.assoc]
+                if pool and ch.bool(2, 3):
+                    nm = ch.choice(pool)
                 sel = self.iexpr()
                 out.append(f"associate ({nm} => {sel})")
                 self.assoc.append(nm)
@@ -397,6 +401,13 @@ def locals_for(scope, syms, ch, tag):
 
 
 def gen_case(ch: Chooser, excl=()):
+    proj, refs, feats, nontrivial = gen_model(ch, excl)
+    text, used = render.render_project(proj, ch, features={"comments": True})
+    return {"files": text, "refs": refs, "stub": "", "classes": sorted(feats), "nontrivial": nontrivial,
+            "n_orders": 1, "order_seed": 0}
+
+
+def gen_model(ch: Chooser, excl=(), assoc_from_unused_procs=False):
     feats = set()
     # module `lib` with procedures (and host data), used by a second module and a program
     lib = {"k": "module", "name": "lib", "uses": [], "default_access": None, "access_pos": "early", "decls": [],
@@ -451,6 +462,10 @@ def gen_case(ch: Chooser, excl=()):
     if ch.bool(1, 2):
         syms.ext_subs = [ch.choice(["ext_solver", "legacy_io", "callext"])]
         feats.add("external-subroutine")
+    if assoc_from_unused_procs:
+        # associate names that are procedure names *elsewhere* (not accessible here)
+        syms.assoc_pool = [n for n in SUB_NAMES + FUN_NAMES if n not in syms.subs and n not in syms.funs
+                           and n not in syms.gens][:6]
     files = [{"path": "src/lib.f90", "form": "free", "units": [lib], "doc": None}]
     expected = {}      # scope path -> (node, names called)
     units = []
@@ -507,9 +522,7 @@ def gen_case(ch: Chooser, excl=()):
         feats.update("form:" + f for f in g.forms)
         if len(g.forms) >= 3 and g.arrayref:
             nontrivial = True
-    text, used = render.render_project(proj, ch, features={"comments": True})
-    return {"files": text, "refs": refs, "stub": "", "classes": sorted(feats), "nontrivial": nontrivial,
-            "n_orders": 1, "order_seed": 0}
+    return proj, refs, feats, nontrivial
 
 
 def strategy(tier, excl):
